@@ -77,8 +77,7 @@ def check_run(rep, r, pc, stab, crit):
             continue
         bad = [e for e in pre if e.fam is None]
         if bad:
-            rep.inconclusive('C05.R1', bad[0].where, 'stability family %s not found and a constraint could not be normalised [%s]' % (k, cfg),
-                             got=bad[0].err, loc=bad[0].loc)
+            lpfacts.report_unnormalised(rep, 'C05.R1', bad[0], 'stability family %s not found and a constraint could not be normalised [%s]' % (k, cfg), '[%s]' % cfg)
         else:
             rep.fail('C05.R1', where_run, 'stability family %s is present [%s]' % (k, cfg), got='absent', want=ref.core(), construct='%s absent' % k)
     # no additional constraint over alpha/beta
